@@ -106,7 +106,7 @@ func heldAt(fn *ssa.Function, ins ssa.Instruction, obj ssa.Value) string {
 }
 
 func checkC18(c *Ctx) {
-	c.Explanation = "Decides the structure that makes the recent-message queue a bounded FIFO that is safe under concurrency: (R1) every access to the queue's fields (Items, NextIndex, MaxItems) in non-test code happens while the queue's own lock is held — in an exported method between Lock/RLock and its release (deferred, or not reachable before the access), in an unexported helper only if every caller holds the lock — and every mutation (field store, map update, delete) holds the write lock; (R2) no code outside the package touches the fields; (R3) the insertion key is NextIndex, incremented by exactly one after the insert and nowhere else; eviction happens before the insert, is guarded by len(Items) >= MaxItems, and deletes keys in ascending order; snapshots and eviction obtain their keys from a helper that collects every key and sorts it ascending on all paths; the snapshot appends in that order into a fresh slice built entirely under the read lock. (R4) every call of Add in the module is synchronous (never started as a goroutine or deferred), so arrival order is call order."
+	c.Explanation = "Decides the structure that makes the recent-message queue a bounded FIFO that is safe under concurrency: (R1) every access to the queue's fields (Items, NextIndex, MaxItems) in non-test code happens while the queue's own lock is held — in an exported method between Lock/RLock and its release (deferred, or not reachable before the access), in an unexported helper only if every caller holds the lock — and every mutation (field store, map update, delete) holds the write lock; (R2) no code outside the package touches the fields; (R3) the insertion key is NextIndex, incremented by exactly one after the insert and nowhere else; eviction happens before the insert, is guarded by len(Items) >= MaxItems, and deletes keys in ascending order; snapshots and eviction obtain their keys from a helper that collects every key and sorts it ascending on all paths; the snapshot appends in that order into a fresh slice built entirely under the read lock. (R4) every call of Add in the module is synchronous (never started as a goroutine or deferred), so arrival order is call order; a function that takes messages from a channel and adds them returns only when that channel is closed."
 	c.NotDecided = "sort and map semantics; index overflow after 2^63 additions; linearizability as such (follows from R1 + atomic sections, not enumerated)."
 	P := c.P
 	pkg := "apps/proxy/circular_queue"
@@ -244,6 +244,7 @@ func checkC18(c *Ctx) {
 		}
 	}
 	// releases are deferred right after acquisition in the exported methods
+	explicitRelease := map[*ssa.Function]bool{}
 	for _, fn := range []*ssa.Function{add, get} {
 		lcs := lockCalls(fn)
 		var acq, rel *lockCall
@@ -258,12 +259,34 @@ func checkC18(c *Ctx) {
 		}
 		ok := acq != nil && rel != nil && acq.recv == rel.recv && instrDominates(acq.ins, rel.ins) &&
 			((acq.kind == "Lock" && rel.kind == "Unlock") || (acq.kind == "RLock" && rel.kind == "RUnlock"))
+		how := "acquire followed by the matching deferred release on the same queue"
+		if !ok && acq != nil && rel == nil {
+			// explicit form: one direct release of the matching kind on the same queue, passed on every
+			// path from the acquire to every return (accesses after it are refused by the locked() rule)
+			var direct []*lockCall
+			for i := range lcs {
+				if l := &lcs[i]; !l.deferred && (l.kind == "Unlock" || l.kind == "RUnlock") {
+					direct = append(direct, l)
+				}
+			}
+			if len(direct) == 1 {
+				d := direct[0]
+				match := d.recv == acq.recv && ((acq.kind == "Lock" && d.kind == "Unlock") || (acq.kind == "RLock" && d.kind == "RUnlock"))
+				q := pathQuery{avoid: func(i ssa.Instruction) bool { return i == d.ins }, goal: isReturn}
+				path, _ := q.search(acq.ins.Block(), instrIndex(acq.ins))
+				if match && path == nil && instrDominates(acq.ins, d.ins) && !pathBetween(d.ins, d.ins) {
+					ok = true
+					explicitRelease[fn] = true
+					how = "acquire followed by one explicit matching release that every path to a return passes"
+				}
+			}
+		}
 		pos := fn.Pos()
 		if acq != nil {
 			pos = acq.ins.Pos()
 		}
-		c.Check(ok, "C18-R1", "lock-pairing("+P.FnKey(fn)+")", pos, "acquire followed by the matching deferred release on the same queue",
-			"the method does not pair its lock with a matching deferred release")
+		c.Check(ok, "C18-R1", "lock-pairing("+P.FnKey(fn)+")", pos, how,
+			"the method does not pair its lock with a matching release (deferred, or explicit on every path)")
 		// whole body under the lock: the acquire is in the entry block before any field access (covered by dominance above)
 	}
 	// Add must take the write lock, GetMessages at least the read lock, for the whole body
@@ -293,6 +316,9 @@ func checkC18(c *Ctx) {
 				case l.kind == "Lock" || l.kind == "RLock":
 					nAcq++
 				case !l.deferred:
+					if f == m.fn && explicitRelease[m.fn] {
+						continue // the one explicit release that closes the section (lock-pairing)
+					}
 					nRelDirect++
 				}
 			}
@@ -507,6 +533,24 @@ func checkC18(c *Ctx) {
 		}
 		if !async {
 			c.OK("C18-R4", "add-in-arrival-order", addFn.Pos(), "every call of Add is synchronous")
+		}
+		// "the most recent messages": a loop that takes messages from a channel and adds them must not give
+		// up while the channel is open — the queue would then hold a stale run for ever
+		for _, g := range P.ModFuncs() {
+			callsAdd := false
+			eachInstr(g, func(ins ssa.Instruction) {
+				if ci, ok := ins.(ssa.CallInstruction); ok && ci.Common().StaticCallee() == addFn {
+					callsAdd = true
+				}
+			})
+			rss := recvSites(g)
+			if !callsAdd || len(rss) != 1 || rss[0].ok == nil {
+				continue
+			}
+			for _, r := range returnsOf(g) {
+				c.Check(rss[0].dominatedByClosed(r.Block()), "C18-R4", "adder-stops-only-on-close("+P.FnKey(g)+")", r.Pos(), "the loop feeding the queue ends only when its channel is closed",
+					"the loop feeding the queue can end while messages are still arriving: later messages are never added and snapshots show a stale run, not the most recent messages")
+			}
 		}
 	}
 	c.MinInstances("C18-R1", 12)
